@@ -193,10 +193,12 @@ def free_and_assigned(tr, stmts):
     return free, assigned
 
 
-def chunks(tr, stmts, cuts, names, final_outputs, compose_name, compose_inputs, doc=""):
+def chunks(tr, stmts, cuts, names, final_outputs, compose_name, compose_inputs, doc="", keep=(), compose_result=None):
     """Cut `stmts` before the first statement assigning each name in `cuts`; piece k becomes
-    `def names[k] (free…) : List R := …; [outs…]`, outs = what later pieces (or `final_outputs`) read.
-    `final_outputs` may name vectors (expanded).  Returns (text, info)."""
+    `def names[k] (free…) : List R := …; [outs…]`, outs = what later pieces (or `final_outputs`) read, plus the names in
+    `keep` a piece assigns.  `final_outputs` may name vectors (expanded).  With `compose_result` (Lean text over the names
+    the pieces have output) the composition matches on the last piece too and returns that expression.
+    Returns (text, info)."""
     idx = [0]
     for c in cuts:
         k = next((i for i, s in enumerate(stmts) if isinstance(s, ast.Assign) and c in tr.target_names(s.targets[0])), None)
@@ -211,7 +213,7 @@ def chunks(tr, stmts, cuts, names, final_outputs, compose_name, compose_inputs, 
         later_need = set()
         for j in range(k + 1, len(pieces)):
             later_need |= set(fa[j][0])
-        outs = [n for n in fa[k][1] if n in later_need or (k == len(pieces) - 1 and n in final_outputs)]
+        outs = [n for n in fa[k][1] if n in later_need or n in keep or (k == len(pieces) - 1 and n in final_outputs)]
         body_lines = []
         for s in p:
             body_lines += tr.stmt(s)
@@ -231,13 +233,15 @@ def chunks(tr, stmts, cuts, names, final_outputs, compose_name, compose_inputs, 
         if missing:
             raise Untranslatable(f"piece {inf['name']} needs {missing}")
         call = f"{inf['name']} {' '.join(lname(n) for n in inf['free'])}"
-        if k == len(info) - 1:
+        if k == len(info) - 1 and compose_result is None:
             comp.append("  " * depth + call)
         else:
             comp.append("  " * depth + f"match {call} with")
             comp.append("  " * depth + "| [" + ", ".join(inf["outs"]) + "] =>")
             depth += 1
             avail |= set(inf["outs"]) | {o for o in fa[k][1]}
+    if compose_result is not None:
+        comp.append("  " * depth + compose_result)
     for d in range(depth - 1, 0, -1):
         comp.append("  " * d + "| _ => []")
     return "\n".join(tr.helpers) + "\n" + "\n".join(texts) + "\n" + (f"/-- {doc} -/\n" if doc else "") + "\n".join(comp) + "\n", info
